@@ -47,6 +47,20 @@ type c10Cfg struct {
 	Macs      int      `json:"macs"`
 	Steps     int      `json:"steps"`
 	Hosts     []string `json:"hostnames"`
+	// Gateway is the position of the gateway relative to the pool: "below"
+	// (.1, the usual case), "range-start", "range-end", "inside",
+	// "just-above", "pool-at-network-address", "pool-at-broadcast-address".
+	Gateway string `json:"gateway_position"`
+}
+
+// c10GwPositions are the gateway positions of the edge histories.
+var c10GwPositions = []string{"range-start", "range-end", "inside", "just-above",
+	"pool-at-network-address", "pool-at-broadcast-address"}
+
+// c10Scripted is a step that is not drawn.
+type c10Scripted struct {
+	kind string
+	mac  int
 }
 
 // c10Step is one step of a history together with what was observed.
@@ -120,7 +134,12 @@ type c10Hist struct {
 	stop      bool
 
 	nAck, nExhaust, nRestart, nStaticOK, nStaticRej, nExpired, nReclaim int
-	nRestartBad                                                         int
+
+	// script holds the steps to run before drawn ones; cfgRejected is set when
+	// Create refused an edge configuration.
+	script      []c10Scripted
+	cfgRejected bool
+	nRestartBad int
 }
 
 const (
@@ -158,7 +177,7 @@ func c10Scratch() string {
 
 func TestVerifC10(t *testing.T) {
 	rep := verifkit.New("C10", "history",
-		"case = one seeded history (pool of 2-6 addresses, 3-8 hardware addresses, 20-120 steps: DISCOVER / REQUEST selecting, init-reboot, renew / DECLINE / RELEASE with right and wrong addresses and server ids, static add/update/remove inside and outside the pool, clock advances around the lease time, restarts) run against the real server from Create with the real leases.json; invariants over Leases(), reply packets, the database file and a reload are checked after every step; non-trivial = at least one ACK and at least one of {pool exhaustion refusal, accepted static operation, restart with entries in the database}; distinct by (configuration, step sequence)")
+		"case = one seeded history (pool of 2-6 addresses, gateway below the pool or - in extra histories that first lease until the pool is exhausted - at range start, at range end, inside, just above the pool, or with the pool at the network or broadcast address; 3-8 hardware addresses, 20-120 steps: DISCOVER / REQUEST selecting, init-reboot, renew / DECLINE / RELEASE with right and wrong addresses and server ids, static add/update/remove inside and outside the pool, clock advances around the lease time, restarts) run against the real server from Create with the real leases.json; invariants over Leases(), reply packets, the database file and a reload are checked after every step; non-trivial = at least one ACK and at least one of {pool exhaustion refusal, accepted static operation, restart with entries in the database}; distinct by (configuration, step sequence)")
 	defer func() {
 		if err := rep.Write(); err != nil {
 			t.Fatal(err)
@@ -176,9 +195,19 @@ func TestVerifC10(t *testing.T) {
 	defer func() { _ = os.RemoveAll(base) }()
 
 	gen := rep.Rand("main")
+	edge := rep.Rand("gateway-positions")
 	n := verifkit.Pick(800, 20000)
-	for i := 0; i < n; i++ {
-		h := c10NewHist(rep, rand.New(rand.NewSource(gen.Int63())), filepath.Join(base, fmt.Sprintf("h%d", i)))
+	// Histories with the gateway at, inside or next to the pool, and with the
+	// pool at the ends of the network, follow the ordinary ones.
+	nEdge := verifkit.Pick(20, 400) * len(c10GwPositions)
+	for i := 0; i < n+nEdge; i++ {
+		var h *c10Hist
+		if i < n {
+			h = c10NewHist(rep, rand.New(rand.NewSource(gen.Int63())), filepath.Join(base, fmt.Sprintf("h%d", i)))
+		} else {
+			h = c10NewEdgeHist(rep, rand.New(rand.NewSource(edge.Int63())), filepath.Join(base, fmt.Sprintf("h%d", i)),
+				c10GwPositions[(i-n)%len(c10GwPositions)])
+		}
 		synctest.Run(h.run)
 		_ = os.RemoveAll(h.dir)
 
@@ -192,6 +221,9 @@ func TestVerifC10(t *testing.T) {
 		rep.Class(fmt.Sprintf("macs=%d", h.cfg.Macs))
 		if h.nExhaust > 0 {
 			rep.Class("histories_with_pool_exhaustion")
+			if h.cfg.Gateway != "below" && !h.cfgRejected {
+				rep.Class("config:gateway-" + h.cfg.Gateway + ":accepted:pool-exhausted")
+			}
 		}
 		if h.nExpired > 0 {
 			rep.Class("histories_with_lease_expiry")
@@ -217,6 +249,15 @@ func TestVerifC10(t *testing.T) {
 			rep.Inconcl("event never observed: " + ev)
 		}
 	}
+	for _, pos := range c10GwPositions {
+		k := "config:gateway-" + pos
+		if rep.ClassCount(k+":accepted")+rep.ClassCount(k+":rejected") == 0 {
+			rep.Inconcl("no history used the gateway position " + pos)
+		}
+		if acc := rep.ClassCount(k + ":accepted"); acc > 0 && rep.ClassCount(k+":accepted:pool-exhausted") == 0 {
+			rep.Inconcl("no history with the accepted gateway position " + pos + " exhausted its pool")
+		}
+	}
 	if rep.ClassCount("restart-unreadable-db:with-stored-leases") == 0 {
 		rep.Inconcl("no restart with an unreadable database happened while leases were stored")
 	}
@@ -232,6 +273,7 @@ func c10NewHist(rep *verifkit.Report, rng *rand.Rand, dir string) *c10Hist {
 		LeaseS:    []int{60, 120, 300, 600, 3600}[rng.Intn(5)],
 		Macs:      3 + rng.Intn(6),
 		Steps:     20 + rng.Intn(101),
+		Gateway:   "below",
 	}
 	perm := rng.Perm(len(c10HostPool))
 	for _, i := range perm[:3] {
@@ -241,6 +283,33 @@ func c10NewHist(rep *verifkit.Report, rng *rand.Rand, dir string) *c10Hist {
 		c.Hosts = append(c.Hosts, c10WeirdHosts[rng.Intn(len(c10WeirdHosts))])
 	}
 	h.cfg = c
+
+	return h
+}
+
+// c10NewEdgeHist makes a history whose gateway sits at pos relative to a small
+// pool, and which starts by leasing addresses until the pool is exhausted.
+func c10NewEdgeHist(rep *verifkit.Report, rng *rand.Rand, dir, pos string) *c10Hist {
+	h := c10NewHist(rep, rng, dir)
+	c := &h.cfg
+	c.Gateway = pos
+	c.PoolSize = 2 + rng.Intn(3)
+	if pos == "inside" && c.PoolSize < 3 {
+		c.PoolSize = 3
+	}
+	c.Macs = c.PoolSize + 1 + rng.Intn(3)
+	switch pos {
+	case "pool-at-network-address":
+		c.PoolStart = 0
+	case "pool-at-broadcast-address":
+		c.PoolStart = 256 - c.PoolSize
+	}
+	c.Steps = 2*c.Macs + 10 + rng.Intn(40)
+	// Every client asks for and takes an address; the last ones find the
+	// pool exhausted.
+	for m := 0; m < c.Macs; m++ {
+		h.script = append(h.script, c10Scripted{c10Discover, m}, c10Scripted{c10Select, m})
+	}
 
 	return h
 }
@@ -297,7 +366,21 @@ func (h *c10Hist) run() {
 	}()
 	c := h.cfg
 	h.t0 = time.Now()
-	h.gw, h.self = h.addr(1), h.addr(2)
+	end := c.PoolStart + c.PoolSize - 1
+	gwLast, selfLast := 1, 2
+	switch c.Gateway {
+	case "range-start":
+		gwLast = c.PoolStart
+	case "range-end":
+		gwLast = end
+	case "inside":
+		gwLast = c.PoolStart + 1 + h.rng.Intn(c.PoolSize-2)
+	case "just-above":
+		gwLast = end + 1
+	case "pool-at-network-address":
+		gwLast, selfLast = 200, 250
+	}
+	h.gw, h.self = h.addr(gwLast), h.addr(selfLast)
 	h.otherSID = h.addr(77)
 	h.foreign = netip.AddrFrom4([4]byte{10, 9, byte(c.Net), 7})
 	for i := 0; i < c.PoolSize; i++ {
@@ -305,8 +388,15 @@ func (h *c10Hist) run() {
 		h.pool = append(h.pool, a)
 		h.poolSet[a] = true
 	}
-	end := c.PoolStart + c.PoolSize - 1
-	h.outIPs = []netip.Addr{h.addr(c.PoolStart - 1), h.addr(c.PoolStart - 4), h.addr(end + 1), h.addr(end + 5), h.addr(200)}
+	for _, last := range []int{c.PoolStart - 1, c.PoolStart - 4, end + 1, end + 5, 200, 201, 202} {
+		if last > 200 && len(h.outIPs) >= 3 {
+			break
+		}
+		if last < 3 || last > 254 || last == gwLast || last == selfLast || (last >= c.PoolStart && last <= end) {
+			continue
+		}
+		h.outIPs = append(h.outIPs, h.addr(last))
+	}
 	h.allIPs = append(append(append([]netip.Addr{}, h.pool...), h.outIPs...), h.gw, h.foreign)
 	for i := 0; i < c.Macs; i++ {
 		h.macs = append(h.macs, net.HardwareAddr{0x02, 0, 0, 0, byte(c.Net), byte(i + 1)})
@@ -321,9 +411,19 @@ func (h *c10Hist) run() {
 	var err error
 	h.srv, h.v4, err = h.create()
 	if err != nil {
+		if c.Gateway != "below" {
+			// Refusing a configuration is always fine.
+			h.cfgRejected = true
+			h.rep.Class("config:gateway-" + c.Gateway + ":rejected")
+
+			return
+		}
 		h.rep.Inconcl("Create failed on a valid configuration: " + err.Error())
 
 		return
+	}
+	if c.Gateway != "below" {
+		h.rep.Class("config:gateway-" + c.Gateway + ":accepted")
 	}
 
 	for n := 0; n < c.Steps && !h.stop; n++ {
@@ -495,6 +595,28 @@ func (h *c10Hist) otherIP(not netip.Addr) netip.Addr {
 
 func (h *c10Hist) step() {
 	s := h.cur
+	if len(h.script) > 0 {
+		sc := h.script[0]
+		h.script = h.script[1:]
+		mac := h.macs[sc.mac]
+		s.Kind, s.Mac = sc.kind, mac.String()
+		h.rep.Event("step:" + s.Kind)
+		switch sc.kind {
+		case c10Discover:
+			s.Var = "scripted"
+			h.doDiscover(mac, netip.Addr{}, "")
+		case c10Select:
+			ip, ok := h.claim(s.Mac)
+			s.Var = "right"
+			if !ok {
+				s.Var, ip = "no-offer", h.pool[0]
+			}
+			s.IP, s.SID = ip.String(), h.self.String()
+			h.doRequest(mac, ip, h.self, netip.Addr{}, "")
+		}
+
+		return
+	}
 	weights := []struct {
 		kind string
 		w    int
@@ -925,7 +1047,8 @@ func (h *c10Hist) doDiscover(mac net.HardwareAddr, reqIP netip.Addr, host string
 	_, reserved := h.reserved[ms]
 	var free, freeIgnoringOffers []netip.Addr
 	for _, a := range h.pool {
-		if h.heldOrReserved(a, now, ms) {
+		// The gateway's own address is never a free pool address.
+		if a == h.gw || h.heldOrReserved(a, now, ms) {
 			continue
 		}
 		freeIgnoringOffers = append(freeIgnoringOffers, a)
